@@ -704,6 +704,13 @@ fn gate_block(w: &World, p: &Position, tip: usize, c: &Candidate, first: bool, s
 /// full node on the unedited twin of X and re-parented onto X. None when the unedited twin does
 /// not get adopted this way at this position (gate not applicable).
 fn gate_first_of_side_chain(w: &World, p: &Position, tip: usize, c: &Candidate) -> Option<(Verdict, String)> {
+    gate_first_of_side_chain_mode(w, p, tip, c, false)
+}
+
+/// `via_restart`: the node is a full node writing block files; after the sibling has been stored it
+/// is shut down and started again from its own files (the sibling is read back by the start-up
+/// loader without ever having been examined), and only then the follower arrives
+fn gate_first_of_side_chain_mode(w: &World, p: &Position, tip: usize, c: &Candidate, via_restart: bool) -> Option<(Verdict, String)> {
     use crate::node::{block_bytes, golden_ticket_tx, txmap};
     let pp = w.blocks[tip].parent?;
     let att = key(ATTACKER);
@@ -767,6 +774,41 @@ fn gate_first_of_side_chain(w: &World, p: &Position, tip: usize, c: &Candidate) 
     let run_with = |xbytes: &[u8]| -> Option<Verdict> {
         let xb = decode_block(xbytes);
         let yb = if xb.hash == x0b.hash { y.clone() } else { reparent(&y, xb.hash) };
+        if via_restart {
+            use crate::props::c12::{deliver, node_cfg, restart};
+            if !p.prelude.is_empty() || p.witnessed.is_some() {
+                return None;
+            }
+            let io = crate::seams::MemIO::new();
+            let mut fnode = crate::fullnode::FullNode::new(key(9), node_cfg(w), io.clone(), crate::seams::ManualClock::new(5_000_000));
+            if !fnode.init().is_done() {
+                return None;
+            }
+            for i in w.path(tip) {
+                if !deliver(&mut fnode, &w.blocks[i].bytes).is_done() {
+                    return None;
+                }
+            }
+            if fnode.tip().1 != w.blocks[tip].hash {
+                return None;
+            }
+            match deliver(&mut fnode, xbytes) {
+                Outcome::Done(()) => {}
+                o => return Some(Verdict::Abort(o.label())),
+            }
+            if fnode.tip().1 != w.blocks[tip].hash {
+                return None;
+            }
+            let mut r = match restart(w, fnode.io.files(), false) {
+                Ok(r) => r,
+                Err(e) => return Some(Verdict::Abort(format!("restart: {}", e))),
+            };
+            match deliver(&mut r.n, &block_bytes(&yb)) {
+                Outcome::Done(()) => {}
+                o => return Some(Verdict::Abort(o.label())),
+            }
+            return Some(if r.n.tip().1 == yb.hash { Verdict::Accepted } else { Verdict::Rejected });
+        }
         let mut n = node_with_prelude(p, tip).ok()?;
         let before = n.tip();
         match n.add_block_bytes(xbytes) {
@@ -933,6 +975,15 @@ pub fn main(tier: Tier, _replay: Option<String>) -> i32 {
             }
         }
         let _ = first_of_side;
+        if tip == p.tip && !c.control && p.prelude.is_empty() && p.witnessed.is_none() {
+            match gate_first_of_side_chain_mode(w, p, tip, c, true) {
+                Some((v, d)) => {
+                    r.outcome(&format!("side-block-read-back-at-start-up@{}:{}", p.name, match &v { Verdict::Accepted => "adopted", Verdict::Rejected => "refused", Verdict::Abort(_) => "abort" }));
+                    verdicts.push(("block:side-block-read-back-at-start-up".into(), v, d));
+                }
+                None => r.outcome("gate-not-applicable:side-block-read-back-at-start-up"),
+            }
+        }
         for (gate, v, d) in verdicts {
             r.evaluations += 1;
             r.transitions += 1;
@@ -944,7 +995,7 @@ pub fn main(tier: Tier, _replay: Option<String>) -> i32 {
             let auth_here = if gate == "block:side-chain" {
                 let (_, sp) = p.side.unwrap();
                 authorised(&c.tx, &w.ledgers[sp], w.blocks[sp].id + 1, g)
-            } else if gate == "block:first-of-a-longer-side-chain" {
+            } else if gate == "block:first-of-a-longer-side-chain" || gate == "block:side-block-read-back-at-start-up" {
                 let pp = w.blocks[tip].parent.unwrap();
                 let mut a = authorised(&c.tx, &w.ledgers[pp], w.blocks[pp].id + 1, g);
                 if a.is_ok() {
